@@ -122,6 +122,12 @@ pub proof fn axiom_vec_u64_len(v: &Vec<u64>)
     ensures v@.len() < 0x200_0000_0000_0000
 { }
 
+//@ assume axiom_slice_u64_len : same address-space argument as axiom_vec_u64_len, for a borrowed slice of digits
+#[verifier::external_body]
+pub proof fn axiom_slice_u64_len(v: &[u64])
+    ensures v@.len() < 0x200_0000_0000_0000
+{ }
+
 //@ assume std::i32/i64/i128::wrapping_neg : std documentation: two's-complement negation; MIN.wrapping_neg() == MIN
 pub assume_specification[ i32::wrapping_neg ](x: i32) -> (r: i32)
     ensures r as int == (if x == i32::MIN { x as int } else { -(x as int) });
